@@ -6,6 +6,7 @@ import (
 	"io"
 	"net"
 	"sync"
+	"sync/atomic"
 	"time"
 
 	"github.com/fiorix/go-diameter/v4/diam"
@@ -32,10 +33,11 @@ func init() {
 			{Name: "slow-peer-with-read-timeout", Weight: 1, Bubble: true, Run: c07ReadTimeoutStall},
 			{Name: "write-timeout-window", Weight: 1, Bubble: true, Run: c07WriteWindow},
 			{Name: "message-object-written-again", Weight: 1, Bubble: true, Run: c07Reuse},
+			{Name: "retry-among-other-writers", Weight: 1, Bubble: true, Run: c07RetryAmongWriters},
 			{Name: "sweep-retry", Run: c07Sweep, SweepN: c07SweepN, QuickSweep: true, Exhaustive: true,
 				SweepNote: "every sequence of up to 3 outcomes over {accept 0, 1, half, all} x {temporary, permanent, plain error} (then success), x retry budgets 0..3 x {io.Writer, MultistreamWriter}: 15 080 cases"},
 		},
-		MustProbes: []string{"writer-blocked-on-lock", "stall-with-queued-writers", "retry-resumed", "sctp-concurrent-writes", "sctp-write-stall", "retry-after-write-timeout", "write-timeout", "sctp-retry-while-reader-elsewhere", "answer-stalled-past-read-timeout", "second-write-late-in-window", "message-rewritten-after-edit"},
+		MustProbes: []string{"writer-blocked-on-lock", "stall-with-queued-writers", "retry-resumed", "sctp-concurrent-writes", "sctp-write-stall", "retry-after-write-timeout", "write-timeout", "sctp-retry-while-reader-elsewhere", "answer-stalled-past-read-timeout", "second-write-late-in-window", "message-rewritten-after-edit", "writer-ran-between-retry-attempts"},
 	})
 }
 
@@ -1224,5 +1226,99 @@ func c07Reuse(e *Env) {
 			e.Fail("C07/garbled-message/reuse", "write #%d of a message object that had been written before and edited since: the bytes on the wire are not the message's current content", k)
 			return
 		}
+	}
+}
+
+// c07RetryAmongWriters: the two halves of the property together. Writer A asked for retries and
+// its first attempt is cut short by a temporary error; before A's next attempt another goroutine
+// writes a message of its own on the same connection. Both messages must reach the transport
+// whole: A's remaining bytes belong right behind A's first bytes.
+func c07RetryAmongWriters(e *Env) {
+	t := e.T
+	e.TrustWait = false
+	sc := newSimConn(e, "c0", drawAddr(t, 3868), drawAddr(t, 40000))
+	mux := diam.NewServeMux()
+	conn, err := diam.NewConn(sc, "sim", mux, simDict())
+	if err != nil {
+		e.Harness("NewConn: %v", err)
+	}
+	defer func() { sc.EndRead(io.EOF, false); e.Quiesce() }()
+	mk := func(k, size int) (*diam.Message, []byte) {
+		payload := marker(k, 0, size, byte(40+k))
+		m := diam.NewMessage(900, diam.RequestFlag, 0, uint32(600+k), uint32(700+k), simDict())
+		m.NewAVP(avpSimOctets, 0, 0, datatype.OctetString(payload))
+		return m, RefMsg{Cmd: 900, Flags: 0x80, HbH: uint32(600 + k), E2E: uint32(700 + k), AVPs: []RefAVP{{Code: avpSimOctets, Data: payload}}}.Bytes()
+	}
+	ma, wantA := mk(1, c07Sizes(t))
+	mb, wantB := mk(2, t.Range(0, 300))
+	// A's goroutine is held at the point between two attempts of its retried write
+	var mu sync.Mutex
+	var held chan struct{}
+	var isA atomic.Bool
+	diam.VerifYield = func(site string) {
+		if site != "write.retry" || !isA.Load() {
+			return
+		}
+		mu.Lock()
+		ch := make(chan struct{})
+		held = ch
+		e.ParkBegin(true)
+		mu.Unlock()
+		<-ch
+	}
+	cut := t.Range(1, len(wantA)-1)
+	sc.ArmWriteFault(&WriteFault{Kind: "temp", After: cut})
+	type res struct {
+		n   int64
+		err error
+	}
+	doneA := make(chan res, 1)
+	go func() {
+		isA.Store(true)
+		n, err := ma.WriteToWithRetry(conn, uint(t.Range(1, 3)))
+		isA.Store(false)
+		doneA <- res{n, err}
+	}()
+	e.Quiesce()
+	mu.Lock()
+	parked := held != nil
+	mu.Unlock()
+	if !parked {
+		e.Harness("the retried writer did not reach the point between its attempts")
+	}
+	e.Act("retry-held", "A accepted %d of %d, then a temporary error", cut, len(wantA))
+	// meanwhile B writes
+	isA.Store(false)
+	if n, err := mb.WriteTo(conn); err != nil || int(n) != len(wantB) {
+		e.Fail("C07/write-failed", "the other writer's write failed: n=%d err=%v", n, err)
+	}
+	isA.Store(true)
+	e.Probe("writer-ran-between-retry-attempts")
+	e.NonTrivial()
+	mu.Lock()
+	ch := held
+	held = nil
+	mu.Unlock()
+	e.ParkEnd(true)
+	close(ch)
+	e.Quiesce()
+	select {
+	case r := <-doneA:
+		if r.err != nil || int(r.n) != len(wantA) {
+			e.Fail("C07/retry-via-conn/remaining-not-sent", "the retried write reported n=%d err=%v for a %d-byte message", r.n, r.err, len(wantA))
+			return
+		}
+	default:
+		e.Fail("C07/write-never-returned/retry", "the retried write did not return")
+		return
+	}
+	if e.Failed() {
+		return
+	}
+	got := sc.Written()
+	ab := append(append([]byte{}, wantA...), wantB...)
+	ba := append(append([]byte{}, wantB...), wantA...)
+	if !bytes.Equal(got, ab) && !bytes.Equal(got, ba) {
+		e.Fail("C07/interleaved-or-corrupt/retry-vs-other-writer", "writer A's retried message (first attempt accepted %d of %d bytes, then a temporary error) and writer B's message are both reported written, but the transport does not hold the two messages whole: B's bytes sit between A's first bytes and A's remaining bytes", cut, len(wantA))
 	}
 }
